@@ -34,28 +34,61 @@ func TestBulk200(t *testing.T) {
 				fatal = fmt.Sprintf("harness panic: %v", r)
 			}
 		}()
-		runBulk(w, 230)
+		pr := w.AttachMonitors()
+		w.Init(pr)
+		// layouts of the due times: the 200-per-block limit falls exactly on the end of a time bucket (150+50), in the middle of one
+		// (120+110), everything in one bucket, every consumer in a bucket of its own
+		layouts := [][]int{{150, 50, 20, 10}, {120, 110}, {230}, nil}
+		rounds := []int{0, 1 + int(seed%2)}
+		if tier == "thorough" {
+			rounds = []int{0, 1, 2, 3}
+		}
+		for _, r := range rounds {
+			g := layouts[r]
+			if g == nil {
+				for i := 0; i < 215; i++ {
+					g = append(g, 1)
+				}
+			}
+			w.Event("C10", fmt.Sprintf("bulk-layout:%d", r))
+			runBulk(w, g)
+		}
+		w.FinalChecks()
 	}()
 	w.Finish(os.Getenv("VERIF_OUT"), start, fatal)
 }
 
-func runBulk(w *World, n int) {
-	pr := w.AttachMonitors()
-	w.Init(pr)
+func runBulk(w *World, groups []int) {
 	owners := []*Account{w.Accts["owner0"], w.Accts["owner1"], w.Accts["owner2"]}
 	spawn := w.Now.Add(10 * time.Minute).Truncate(time.Second)
-	// creation in batches (several transactions per block)
-	var ids []string
-	for len(ids) < n {
-		var specs []TxSpec
-		for i := 0; i < 46 && len(ids)+len(specs) < n; i++ {
-			o := owners[(len(ids)+i)%3]
-			specs = append(specs, TxSpec{Signer: o, Msgs: []sdk.Msg{MsgCreateConsumer(o, fmt.Sprintf("bulk%d", (len(ids)+i)%7), DefaultInitParams(spawn, w.Cfg.ConsumerUnbonding), nil, nil)}, Tag: "create-consumer"})
+	n := 0
+	var groupOf []int
+	for gi, g := range groups {
+		n += g
+		for i := 0; i < g; i++ {
+			groupOf = append(groupOf, gi)
 		}
+	}
+	// creation in batches (several transactions per block); group g is due at spawn + g seconds
+	var ids []string
+	var grp []int
+	made := 0
+	for made < n {
+		var specs []TxSpec
+		var gs []int
+		for i := 0; i < 46 && made+len(specs) < n; i++ {
+			k := made + i
+			o := owners[k%3]
+			sp := spawn.Add(time.Duration(groupOf[k]) * time.Second)
+			specs = append(specs, TxSpec{Signer: o, Msgs: []sdk.Msg{MsgCreateConsumer(o, fmt.Sprintf("bulk%d", k%7), DefaultInitParams(sp, w.Cfg.ConsumerUnbonding), nil, nil)}, Tag: "create-consumer"})
+			gs = append(gs, groupOf[k])
+		}
+		made += len(specs)
 		w.Tick()
-		for _, o := range w.ProviderStep(specs, false, nil) {
+		for i, o := range w.ProviderStep(specs, false, nil) {
 			if o.OK() {
 				ids = append(ids, eventAttr(o.Result.Events, providertypes.EventTypeCreateConsumer, providertypes.AttributeConsumerId))
+				grp = append(grp, gs[i])
 			}
 		}
 	}
@@ -97,7 +130,7 @@ func runBulk(w *World, n int) {
 	flush()
 	w.syncShadow()
 	// the launch instant: >200 due in one block, the rest in the following block
-	w.Now = spawn
+	w.Now = spawn.Add(time.Duration(len(groups)) * time.Second)
 	w.ProviderStep(nil, false, nil)
 	w.Tick()
 	w.ProviderStep(nil, false, nil)
@@ -113,15 +146,22 @@ func runBulk(w *World, n int) {
 	// infraction-parameter changes for all launched consumers in ONE block: all due at the same time
 	w.syncShadow()
 	ip := w.randInfraction(false)
-	for _, id := range ids {
-		if ci := w.Shadow.ByID[id]; ci != nil && ci.Owner != nil && w.Phase(id) == phLaunch {
-			specs = append(specs, TxSpec{Signer: ci.Owner, Msgs: []sdk.Msg{&providertypes.MsgUpdateConsumer{Owner: ci.Owner.Addr.String(), ConsumerId: id, InfractionParameters: ip}}, Tag: "update-consumer:infraction"})
+	var changeAt time.Time
+	for gi := range groups { // one block per group: the groups become due at different times, all inside one later block
+		for i, id := range ids {
+			if ci := w.Shadow.ByID[id]; grp[i] == gi && ci != nil && ci.Owner != nil && w.Phase(id) == phLaunch {
+				specs = append(specs, TxSpec{Signer: ci.Owner, Msgs: []sdk.Msg{&providertypes.MsgUpdateConsumer{Owner: ci.Owner.Addr.String(), ConsumerId: id, InfractionParameters: ip}}, Tag: "update-consumer:infraction"})
+			}
 		}
+		if len(groups) > 100 {
+			w.AdvanceTime(time.Second)
+		} else {
+			w.Tick()
+		}
+		changeAt = w.Now
+		w.ProviderStep(specs, false, nil)
+		specs = nil
 	}
-	w.Tick()
-	changeAt := w.Now
-	w.ProviderStep(specs, false, nil)
-	specs = nil
 	unb, _ := w.P.PApp.StakingKeeper.UnbondingTime(w.P.Ctx())
 	// some are replaced / cancelled before they are due
 	cur := w.randInfraction(false)
@@ -144,15 +184,22 @@ func runBulk(w *World, n int) {
 	w.ProviderStep(nil, false, nil)
 	// removal of all launched consumers in ONE block
 	w.syncShadow()
-	for _, id := range ids {
-		if ci := w.Shadow.ByID[id]; ci != nil && ci.Owner != nil && w.Phase(id) == phLaunch {
-			specs = append(specs, TxSpec{Signer: ci.Owner, Msgs: []sdk.Msg{&providertypes.MsgRemoveConsumer{ConsumerId: id, Owner: ci.Owner.Addr.String()}}, Tag: "remove-consumer"})
+	var stopAt time.Time
+	for gi := range groups {
+		for i, id := range ids {
+			if ci := w.Shadow.ByID[id]; grp[i] == gi && ci != nil && ci.Owner != nil && w.Phase(id) == phLaunch {
+				specs = append(specs, TxSpec{Signer: ci.Owner, Msgs: []sdk.Msg{&providertypes.MsgRemoveConsumer{ConsumerId: id, Owner: ci.Owner.Addr.String()}}, Tag: "remove-consumer"})
+			}
 		}
+		if len(groups) > 100 {
+			w.AdvanceTime(time.Second)
+		} else {
+			w.Tick()
+		}
+		stopAt = w.Now
+		w.ProviderStep(specs, false, nil)
+		specs = nil
 	}
-	w.Tick()
-	stopAt := w.Now
-	w.ProviderStep(specs, false, nil)
-	specs = nil
 	w.Tick()
 	w.ProviderStep(nil, false, nil)
 	unb, _ = w.P.PApp.StakingKeeper.UnbondingTime(w.P.Ctx())
@@ -162,5 +209,4 @@ func runBulk(w *World, n int) {
 	w.ProviderStep(nil, false, nil)
 	w.Tick()
 	w.ProviderStep(nil, false, nil)
-	w.FinalChecks()
 }
